@@ -43,6 +43,7 @@ SKELS = [
     dict(name="same-unit-in-adjacent-blocks", text="[H]{[<][<]C(N)C[>][>]}|uniform(20,120)|{[<][<]C(N)C[>][>]}|gauss(60,20)|CO", units=["[<]C(N)C[>]", "[<]C(N)C[>]"], start=1.0, splits=True),
     dict(name="uniform-window-inside-one-unit", text="OC{[<][<]CO[>][>]}|uniform(30, 50)|N", units=["[<]CO[>]"], start=1.0),
     dict(name="locally-symmetric-substituent", text="OC{[<][<]CC(F)(F)[>][>]}|uniform(0, 200)|N", units=["[<]CC(F)(F)[>]"], start=1.0),
+    dict(name="heavy-isotope-unit", text="[H]{[<][<]C(N)[13CH2][>][>]}|uniform(20, 120)|CO", units=["[<]C(N)[13CH2][>]"], start=1.0),
     dict(name="poisson-block", text="[H]{[<][<]C(N)C[>][>]}|poisson(65)|CO", units=["[<]C(N)C[>]"], start=1.0),
 ]
 
